@@ -21,6 +21,7 @@ const repoModule = "github.com/insomniacslk/dhcp"
 
 type Engine struct {
 	repoDir   string
+	replayBudget bool
 	verifDir  string
 	pkgs      []*packages.Package
 	allPkgs   map[string]*packages.Package
